@@ -48,10 +48,10 @@ func (c *rec) Write(b []byte) (int, error) {
 }
 
 type result struct {
-	panic                    string
-	writes, status, first    int
-	before, atFirst, end     int
-	body                     string
+	panic                 string
+	writes, status, first int
+	before, atFirst, end  int
+	body                  string
 }
 
 func do(h http.Handler, req *http.Request, st *refstore.Store) result {
@@ -196,7 +196,7 @@ var basics = []string{"BNone", "BOk", "BBadId", "BBadSecret", "BMalformed"}
 var entries = []string{"ViaProvider", "ViaLegacy", "Direct"}
 
 type shape struct {
-	entry, ep, basic   int
+	entry, ep, basic int
 	formOK, key, cid bool
 }
 
